@@ -1,8 +1,10 @@
 //! cgv_core — shared machinery of the cgmath runtime monitors (see /verif/DESIGN.md):
 //! shadow scalars, clause runner, generators, reference model, evidence.
 
+pub mod acc;
 pub mod bits;
 pub mod conv;
+pub mod dd;
 pub mod fw;
 pub mod gen;
 pub mod iv;
